@@ -34,7 +34,8 @@ async fn snapshot(client: &CorrosionApiClient, id: uuid::Uuid) -> Value {
         Ok(mut st) => {
             let mut rows = vec![];
             let mut eoq = json!(null);
-            let deadline = tokio::time::Instant::now() + Duration::from_millis(2500);
+            // generous: the machine may be busy; a snapshot that does not arrive at all is reported as such, not as empty
+            let deadline = tokio::time::Instant::now() + Duration::from_secs(90);
             while let Ok(Some(ev)) = tokio::time::timeout_at(deadline, st.next()).await {
                 match ev {
                     Ok(TypedQueryEvent::Row(_, cells)) => rows.push(format!("{cells:?}")),
@@ -48,6 +49,9 @@ async fn snapshot(client: &CorrosionApiClient, id: uuid::Uuid) -> Value {
                 }
             }
             rows.sort();
+            if eoq.is_null() {
+                return json!({"timeout": true, "rows": rows});
+            }
             json!({"rows": rows, "eoq": eoq})
         }
     }
@@ -115,6 +119,20 @@ pub async fn run(seed: u64, mode: &str, gap_ms: u64, out_path: &str) -> eyre::Re
         // one more acknowledged write, then the graceful shutdown sequence of command/agent.rs
         client.execute(&[Statement::Simple("INSERT INTO tests (id, text) VALUES (99, 'last')".into())], None).await?;
         if gap_ms > 0 {
+            // outside the region of S7: the match step of every acknowledged write has run before the shutdown begins
+            // (the subscription's change log holds all n + 1 changes), however busy the machine is
+            let want = n + 1;
+            let mut got = 0i64;
+            for _ in 0..1800 {
+                got = rusqlite::Connection::open(sub_db.as_std_path()).ok().and_then(|c| c.query_row("SELECT COALESCE(MAX(id), 0) FROM changes", [], |r| r.get(0)).ok()).unwrap_or(0);
+                if got >= want {
+                    break;
+                }
+                sleep_ms(50).await;
+            }
+            if got < want {
+                merge(&mut result, json!({"timeout": format!("the matcher processed only {got} of {want} changes within 90 s")}));
+            }
             sleep_ms(gap_ms).await;
         }
         let _ = trip_tx.send(()).await;
@@ -124,7 +142,7 @@ pub async fn run(seed: u64, mode: &str, gap_ms: u64, out_path: &str) -> eyre::Re
         }
         agent.subs_manager().drop_handles().await;
         wait_for_all_pending_handles().await;
-        let last_seen = tokio::time::timeout(Duration::from_secs(3), reader).await.ok().and_then(|r| r.ok()).unwrap_or(0);
+        let last_seen = tokio::time::timeout(Duration::from_secs(30), reader).await.ok().and_then(|r| r.ok()).unwrap_or(0);
         let (state, max_id, view_n): (Option<String>, i64, i64) = {
             let c = rusqlite::Connection::open(sub_db.as_std_path())?;
             (
@@ -149,7 +167,7 @@ pub async fn run(seed: u64, mode: &str, gap_ms: u64, out_path: &str) -> eyre::Re
         if restored {
             if let Ok(mut st) = client2.subscription(sub_id, true, Some(klukai_types::api::ChangeId(max_id as u64))).await {
                 client2.execute(&[Statement::Simple("INSERT INTO tests (id, text) VALUES (100, 'after')".into())], None).await?;
-                let deadline = tokio::time::Instant::now() + Duration::from_millis(2500);
+                let deadline = tokio::time::Instant::now() + Duration::from_secs(60);
                 while let Ok(Some(ev)) = tokio::time::timeout_at(deadline, st.next()).await {
                     if let Ok(TypedQueryEvent::Change(_, _, _, id)) = ev {
                         first_after = json!(id.0);
